@@ -24,6 +24,18 @@ TEMPLATES = [
     ('set-branch-only', 'SELECT {A}1 FROM {T} WHERE {B}1 = 1 UNION SELECT {A}2 FROM {U} WHERE {C}2 = 1'),
     ('case-only', 'SELECT DISTINCT CASE WHEN {B}1 > 0 THEN {C}1 ELSE {D}1 END AS v FROM {T}'),
     ('agg-arg-only', 'SELECT {T}.{A}1 AS x, COUNT(DISTINCT {U}.{C}2) AS n FROM {T} JOIN {U} ON {T}.{B}1 = {U}.{B}2 GROUP BY {T}.{A}1'),
+    # the same table scanned more than once: the gathered column set is the UNION of what every scan reads, whichever scan is planned first and
+    # whether or not one of them reads the whole width
+    ('self-join-wide-first', 'SELECT x.{A}1 AS p, x.{B}1 AS q, y.{A}1 AS r FROM {T} x JOIN {T} y ON x.{C}1 = y.{C}1 WHERE x.{D}1 > 0'),
+    ('self-join-narrow-first', 'SELECT x.{A}1 AS p, x.{B}1 AS q, y.{A}1 AS r FROM {T} y JOIN {T} x ON x.{C}1 = y.{C}1 WHERE x.{D}1 > 0'),
+    ('self-join-disjoint-3', 'SELECT x.{A}1 AS p, y.{B}1 AS q, z.{C}1 AS r FROM {T} x JOIN {T} y ON x.{D}1 = y.{D}1 JOIN {T} z ON z.{D}1 = x.{D}1'),
+    ('self-join-disjoint-2', 'SELECT x.{A}1 AS p, y.{B}1 AS q FROM {T} x JOIN {T} y ON x.{C}1 = y.{D}1'),
+    ('self-union-wide-first', 'SELECT {A}1, {B}1, {C}1 FROM {T} WHERE {D}1 > 0 UNION ALL SELECT {A}1, {B}1, {B}1 FROM {T}'),
+    ('self-union-narrow-first', 'SELECT {A}1, {B}1, {B}1 FROM {T} UNION ALL SELECT {A}1, {B}1, {C}1 FROM {T} WHERE {D}1 > 0'),
+    ('self-in-wide-outer', 'SELECT {A}1, {B}1, {C}1, {D}1 FROM {T} WHERE {A}1 IN (SELECT {B}1 FROM {T})'),
+    ('self-in-wide-inner', 'SELECT {A}1 FROM {T} WHERE {A}1 IN (SELECT {B}1 FROM {T} WHERE {C}1 > 0 AND {D}1 > 0 AND {A}1 > 0)'),
+    ('self-exists-wide-outer', 'SELECT x.{A}1, x.{B}1, x.{C}1, x.{D}1 FROM {T} x WHERE EXISTS (SELECT 1 FROM {T} y WHERE y.{B}1 = x.{A}1)'),
+    ('self-join-other-table', 'SELECT x.{A}1 AS p, x.{B}1 AS q, x.{C}1 AS r, y.{A}1 AS s, {U}.{A}2 AS u FROM {T} x JOIN {U} ON x.{D}1 = {U}.{B}2 JOIN {T} y ON y.{B}1 = {U}.{B}2'),
 ]
 ORDERS = {'order-by-only': True}
 
@@ -44,7 +56,12 @@ def statements(quick):
                 sql = re.sub(r'\b([abcd])2\b', lambda m: m.group(1) + '#U', sql)
                 sql = sql.replace('#T', T[1]).replace('#U', U[1])
                 out.append({'sql': sql, 'tag': tag})
-    return out
+    seen, uniq = set(), []
+    for st in out:
+        if st['sql'] not in seen:
+            seen.add(st['sql'])
+            uniq.append(st)
+    return uniq
 
 
 def fix_names(sql, T, U):
@@ -139,9 +156,9 @@ def run(rep):
     st = rotate(statements(quick), rep.seed)
     cfgs = [(2, 0), (3, 2)] if quick else [(2, 0), (2, 1), (3, 0), (3, 2), (5, 0)]
     rep.rule = ('%d statements: %d templates (a column read ONLY in a filter / join key / join residual / IN, EXISTS or scalar subquery / window / ORDER BY / HAVING / CTE body / set-operation '
-                'branch / CASE / aggregate argument) x every ordered pair of 3 four-column tables x %d permutations of the column letters, so every (position, table, column) triple occurs; '
+                'branch / CASE / aggregate argument; the same table scanned two or three times by self-joins, UNION ALL branches and IN/EXISTS subqueries with the whole-width scan first or last) x every ordered pair of 3 four-column tables x %d permutations of the column letters, so every (position, table, column) triple occurs; '
                 'oracle: plan_gather(sql).tables[*].columns is a superset of the columns the statement mentions for that table, and execute_any_distributed over clusters %s equals ctx.sql; '
-                'non-trivial = a plan that narrows at least one table' % (len(st), len(TEMPLATES), len(st) // (len(TEMPLATES) * 6), cfgs))
+                'non-trivial = a plan that narrows at least one table' % (len(st), len(TEMPLATES), 8 if quick else 24, cfgs))
     tasks = [(db, st[i:i + 25], cfgs, rep.prop) for i in range(0, len(st), 25)]
     with mp.Pool(min(12, os.cpu_count() or 4), initializer=sqldiff._init) as pool:
         for out in pool.imap_unordered(_work, tasks):
